@@ -80,7 +80,11 @@ def run(ctx):
     # a property of the value: they are plain), and equal-but-different-type twins side by side
     aliased_src = ["(lambda r: [r, r])([1])", "[[0] * 3] * 3", "(lambda d: {'x': d, 'y': d})({'a': 1})",
                    "(lambda e: [e, [e], {'k': e}])([])", "(lambda r: {'a': [r, r], 'b': r})([1.5, 'x'])",
-                   "[True, 1, 1.0]", "[1.0, True, 1]", "{'a': 0.0, 'b': False, 'c': 0, 'd': -0.0}", "[[1], [1.0], [True]]"]
+                   "[True, 1, 1.0]", "[1.0, True, 1]", "{'a': 0.0, 'b': False, 'c': 0, 'd': -0.0}", "[[1], [1.0], [True]]",
+                   # "at every nesting depth": chains far deeper than the random trees (lists, dicts, mixed)
+                   "(lambda f: f(f, 40))(lambda f, k: [1.5] if k == 0 else [f(f, k - 1)])",
+                   "(lambda f: f(f, 48))(lambda f, k: {'leaf': 'x'} if k == 0 else {'next': f(f, k - 1), 'k': k})",
+                   "(lambda f: f(f, 72))(lambda f, k: None if k == 0 else ([f(f, k - 1), k] if k % 2 else {'d': f(f, k - 1)}))"]
     aliased = [eval(a, dict(gen.NS)) for a in aliased_src]
     for i in range(n):
         if i < len(fixed):
